@@ -54,3 +54,11 @@
 ; classification of errors of the TiKV client (opaque: decided by the client library)
 (declare-fun tikv_not_found (Iface) Bool)
 (declare-fun tikv_write_conflict (Iface) Bool)
+; counting function of the records a scan emits, and the index of the last record visible at the
+; read revision: defined by recursion over the iterator's ghost sequence inside the contracts
+; that use them (definitional axioms, assumed at the loop head)
+(declare-fun cnt (Int) Int)
+(declare-fun lastvis (Int) Int)
+; dead(i): the value of record i of the iterator's ghost sequence is the deletion marker (defined in
+; the scan-loop contract through the instances it needs)
+(declare-fun dead (Int) Bool)
